@@ -120,6 +120,8 @@ func main() {
 		fmt.Printf("replay: %s\n", v1.Msg)
 		fmt.Printf("VIOLATION property=%s replay=%s\n", v.Prop, os.Args[2])
 		os.Exit(1)
+	case "c11worker", "c11race", "c11replay", "instrument":
+		c11main(os.Args[1], os.Args[2:])
 	default:
 		usage()
 	}
